@@ -404,3 +404,41 @@ func (e *VerifEnv) ClusterState() (st VerifClusterState) {
 	}
 	return
 }
+
+// ---- backend reply framing on raw bytes ----
+
+type verifFakeSConn struct {
+	SConn
+	buf       []byte
+	discarded int
+	step      int8
+	status    InitializeStatus
+}
+
+func (f *verifFakeSConn) Peek(n int) ([]byte, error)             { return f.buf[f.discarded:], nil }
+func (f *verifFakeSConn) Discard(n int) (int, error)             { f.discarded += n; return n, nil }
+func (f *verifFakeSConn) Fd() int                                { return 0 }
+func (f *verifFakeSConn) DequeueInFrag() *Frag                   { return FragPool.Get() }
+func (f *verifFakeSConn) InitializeStep() int8                   { return f.step }
+func (f *verifFakeSConn) SetInitializeStatus(s InitializeStatus) { f.status = s }
+func (f *verifFakeSConn) InitializeStatus() InitializeStatus     { return f.status }
+
+// VerifFrameReply runs the real SRespCodec.Decode on data: reply type, bytes consumed, error.
+func VerifFrameReply(data []byte) (codec.Command, int, error) {
+	fs := &verifFakeSConn{buf: data, status: Initialized}
+	c := SRespCodec{MsgMaxLength: 1 << 30}
+	f, err := c.Decode(fs)
+	if err != nil {
+		return codec.UNKNOWN, 0, err
+	}
+	return f.Type, fs.discarded, nil
+}
+
+// VerifInitializingDecode runs the real handshake-reply swallowing: bytes discarded, whether the
+// connection became initialized, error.
+func VerifInitializingDecode(steps int8, data []byte) (int, bool, error) {
+	fs := &verifFakeSConn{buf: data, step: steps, status: Initializing}
+	c := SRespCodec{MsgMaxLength: 1 << 30}
+	err := c.InitializingDecode(fs)
+	return fs.discarded, fs.status == Initialized, err
+}
